@@ -305,6 +305,40 @@ Definition resolve_v1 (c : config1) (key fbfee fbgas : N) : prop_cfg :=
        | None => []
        end |}.
 
+(* docs/execlayer.md, "Precedence of configuration values", reads differently: PER VALUE, "if a
+   value is found in the validator-specific proposer_config section it is used; if not, and a
+   value is found in the default_config section it is used; otherwise, the fallback value is
+   used" (its example: an entry with only a fee recipient takes the builder of the default
+   configuration).  The code selects one whole entry instead ([resolve_v1]); the two differ when
+   the validator's entry is null, lacks a gas limit the default has, or lacks a builder the
+   default has (known finding C10-v1-entry-not-fieldwise; Proofs/C10.v proves both directions). *)
+Definition gas_of1 (q : proposer1) : option N := if q_gas q =? 0 then None else Some (q_gas q).
+
+Definition resolve_v1_doc (c : config1) (key fbfee fbgas : N) : prop_cfg :=
+  let entry := match aget (c1_props c) key with Some (Some q) => Some q | _ => None end in
+  let def := c1_default c in
+  let fee := first_some [option_map q_fee entry; option_map q_fee def] fbfee in
+  let gas := first_some [obind entry gas_of1; obind def gas_of1] fbgas in
+  let builder := or_opt (obind entry q_builder) (obind def q_builder) in
+  {| pc_fee := fee;
+     pc_relays :=
+       match builder with
+       | Some b =>
+           if b_enabled b
+           then map (fun a => {| rc_addr := a; rc_pk := None; rc_fee := fee; rc_gas := gas;
+                                 rc_grace := b_grace b; rc_min := dec_zero |}) (b_relays b)
+           else []
+       | None => []
+       end |}.
+
+(* the lookups on which the two readings coincide: no entry for the key, or a complete one *)
+Definition v1_entry_complete (c : config1) (key : N) : bool :=
+  match aget (c1_props c) key with
+  | None => true
+  | Some None => false
+  | Some (Some q) => negb (q_gas q =? 0) && match q_builder q with Some _ => true | None => false end
+  end.
+
 (* ------------------------------------------------------------------------------------------ *)
 (* Both versions behind the ExecutionConfigurator interface *)
 
@@ -327,6 +361,13 @@ Definition resolve (c : config) (v : validator) (fbfee fbgas : N) : outcome :=
   match c with
   | CV1 c1 => OOk (resolve_v1 c1 (v_key v) fbfee fbgas)
   | CV2 c2 => match resolve_v2 c2 v fbfee fbgas with Some p => OOk p | None => OErr end
+  end.
+
+(* the same with the per-value reading of docs/execlayer.md for the legacy format *)
+Definition resolve_doc (c : config) (v : validator) (fbfee fbgas : N) : outcome :=
+  match c with
+  | CV1 c1 => OOk (resolve_v1_doc c1 (v_key v) fbfee fbgas)
+  | CV2 _ => resolve c v fbfee fbgas
   end.
 
 (* ------------------------------------------------------------------------------------------ *)
